@@ -359,6 +359,95 @@ func randomHistory(u *Universe, rnd *rand.Rand, steps int) []op {
 	return ops
 }
 
+// ---- window-mode histories: few related keys toggled back and forth, flushes only every 1-4 deliveries -----------
+// (shapes such as "sent, then edited and deactivated inside one flush window" or "sent, removal flushed, later
+// activated and deactivated again inside one window", which need an earlier flush and a multi-update window)
+
+func isLocalEndpoint(k *Key) bool {
+	switch kk := k.Key.(type) {
+	case model.WorkloadEndpointKey:
+		return kk.Hostname == localHost
+	case model.HostEndpointKey:
+		return kk.Hostname == localHost
+	}
+	return false
+}
+
+func windowHistory(u *Universe, rnd *rand.Rand) []op {
+	if len(u.Groups) == 0 {
+		return randomHistory(u, rnd, 15+rnd.Intn(45))
+	}
+	g := u.Groups[rnd.Intn(len(u.Groups))]
+	hot := map[string]bool{}
+	for _, k := range g {
+		hot[k] = true
+	}
+	ops := []op{}
+	// background: the other local endpoints are mostly absent so that the group's endpoint decides activity
+	for _, i := range rnd.Perm(len(u.Keys)) {
+		k := &u.Keys[i]
+		if hot[k.ID] {
+			continue
+		}
+		pNil := 0.2
+		if isLocalEndpoint(k) {
+			pNil = 0.6
+		}
+		if rnd.Float64() < pNil {
+			continue
+		}
+		v := k.Variants[rnd.Intn(len(k.Variants))]
+		if v.Invalid {
+			v = k.Variants[0]
+		}
+		ops = append(ops, op{Op: "deliver", K: k.ID, V: v.Name})
+	}
+	insync := false
+	if rnd.Intn(10) < 7 {
+		ops = append(ops, op{Op: "status", V: "in-sync"})
+		insync = true
+	}
+	pick := func() op {
+		k := u.key(g[rnd.Intn(len(g))])
+		v := "nil"
+		if rnd.Intn(10) >= 3 {
+			v = k.Variants[rnd.Intn(len(k.Variants))].Name
+		}
+		return op{Op: "deliver", K: k.ID, V: v}
+	}
+	nwin := 6 + rnd.Intn(7)
+	for w := 0; w < nwin; w++ {
+		// by convention a group lists the object first and a key deciding its activity second
+		val := func(kid string) op {
+			k := u.key(kid)
+			return op{Op: "deliver", K: kid, V: k.Variants[rnd.Intn(len(k.Variants))].Name}
+		}
+		obj, act := g[0], g[1]
+		switch rnd.Intn(10) {
+		case 0, 1: // edited, then deactivated, in one window
+			ops = append(ops, val(obj), op{Op: "deliver", K: act, V: "nil"})
+		case 2: // activated and deactivated again in one window
+			ops = append(ops, val(act), op{Op: "deliver", K: act, V: "nil"})
+		case 3: // deactivated and re-activated in one window
+			ops = append(ops, op{Op: "deliver", K: act, V: "nil"}, val(act))
+		default:
+			n := []int{1, 2, 2, 3, 3, 4}[rnd.Intn(6)]
+			for i := 0; i < n; i++ {
+				ops = append(ops, pick())
+			}
+		}
+		if !insync && rnd.Intn(3) == 0 {
+			ops = append(ops, op{Op: "status", V: "in-sync"})
+			insync = true
+		}
+		ops = append(ops, op{Op: "flush"})
+	}
+	if !insync {
+		ops = append(ops, op{Op: "status", V: "in-sync"}, op{Op: "flush"})
+	}
+	return ops
+}
+
 // ---- async leg: calc.AsyncCalcGraph, for "in-sync is never reported before the datastore reported it" ----
 
 func (d *drv) runAsync(t int, u *Universe, ops []op) {
@@ -521,6 +610,9 @@ func main() {
 			n = 15 + rnd.Intn(45)
 		}
 		ops := randomHistory(u, rnd, n)
+		if i%2 == 1 && !async && os.Getenv("VERIF_WINDOWS") != "off" {
+			ops = windowHistory(u, rnd)
+		}
 		if async {
 			d.runAsync(t, u, ops)
 		} else {
